@@ -493,6 +493,9 @@ def history_script(name, hists):
                 steps.append([op, "w%d" % s["w"], "w%d" % s["src"]])
             else:
                 steps.append([op, "w%d" % s["w"]])
+            # wrappers whose instance is dead must not be dereferenced, not even to observe them
+            steps[-1] = dict(do=steps[-1], usable=["w%d" % (i + 1) for i, w in enumerate(s["wr"])
+                                                    if w["ptr"] != 0 and s["alive"][w["ptr"] - 1]])
         out.append(dict(id=hid, steps=steps))
     return dict(module=name, mode="objects", histories=out)
 
@@ -516,6 +519,8 @@ def judge_history(h, o):
             if own != w["mem"] or const != w["const"]:
                 bad.append("step %d %s: %s has this_ownership=%s this_const=%s, expected %s/%s" % (
                     n + 1, s["op"], k, own, const, w["mem"], w["const"]))
+            if oid is None:         # dangling wrapper: only its own bits are observed
+                continue
             if ident.setdefault(w["ptr"], oid) != oid:
                 bad.append("step %d %s: %s wraps instance id %d, expected the instance with id %d" % (n + 1, s["op"], k, oid, ident[w["ptr"]]))
             if touched != s["touched"][w["ptr"] - 1]:
